@@ -146,10 +146,11 @@ def enumerate_txn_logs(max_entries, pids=(1, 2, 3), sizes=(1,), canonical=True, 
 class TxnLog:
     """Ground truth of a transactional partition log, computed from the entry list alone."""
 
-    def __init__(self, entries, part=0, removed=()):
+    def __init__(self, entries, part=0, removed=(), emptied=()):
         self.entries = [tuple(e) for e in entries]
         self.part = part
         self.removed = set(removed)  # indexes of data entries removed by compaction (whole batches)
+        self.emptied = set(emptied)  # indexes of data entries whose records were all removed, header kept (empty batch)
         self.batches = []  # (index, base, last, entry)
         off = 0
         open_ = {}  # pid -> (first offset, [entry indexes])
@@ -184,7 +185,7 @@ class TxnLog:
         out = []
         limit = self.lso if committed_only else self.end
         for i, base, last, e in self.batches:
-            if e[0] not in ("d", "p", "i") or i in self.removed:
+            if e[0] not in ("d", "p", "i") or i in self.removed or i in self.emptied:
                 continue
             if committed_only and self.status[i] not in ("plain", "committed"):
                 continue
@@ -194,6 +195,30 @@ class TxnLog:
     def served_end(self, committed_only):
         return self.lso if committed_only else self.end
 
+    def served(self, committed_only):
+        """(base, last, index) of the stored batches a broker serves at this isolation level."""
+        limit = self.lso if committed_only else self.end
+        return [(base, last, i) for i, base, last, e in self.batches if i not in self.removed and base < limit]
+
+    def has_served_from(self, pos, committed_only):
+        return any(last >= pos for base, last, i in self.served(committed_only))
+
+    def compactable(self):
+        """Indexes of data batches a log cleaner may touch: strictly below the last stable offset."""
+        return [i for i, base, last, e in self.batches if e[0] in ("d", "p", "i") and last < self.lso]
+
+    def kind_at(self, pos):
+        for i, base, last, e in self.batches:
+            if base <= pos <= last:
+                if i in self.removed:
+                    return "removed-batch"
+                if e[0] in ("c", "a"):
+                    return "control-batch"
+                if i in self.emptied:
+                    return "emptied-batch"
+                return {"plain": "plain-batch", "committed": "committed-batch", "aborted": "aborted-batch", "open": "open-batch"}[self.status[i]]
+        return "log-end"
+
     def raw_batches(self):
         """[(index, raw)] of the stored batches (removed ones omitted), built with vf.krecords."""
         out = []
@@ -201,7 +226,15 @@ class TxnLog:
         for i, base, last, e in self.batches:
             if i in self.removed:
                 continue
-            if e[0] in ("d", "i"):
+            if i in self.emptied:
+                pid = e[1] if e[0] in ("d", "i") else -1
+                raw = krecords.encode_v2([], base_offset=base, last_offset_delta=last - base, transactional=e[0] == "d",
+                                         producer_id=pid, producer_epoch=0 if pid >= 0 else -1,
+                                         base_sequence=seqs.get(pid, 0) if pid >= 0 else -1,
+                                         first_timestamp=1000 + base, max_timestamp=1000 + last)
+                if pid >= 0:
+                    seqs[pid] = seqs.get(pid, 0) + e[2]
+            elif e[0] in ("d", "i"):
                 pid = e[1]
                 n = e[2]
                 seq = seqs.get(pid, 0)
